@@ -912,3 +912,10 @@ Proof.
   - apply C15_ok_flux; auto.
   - apply C15_ok_local; auto.
 Qed.
+
+(** the model has no per-adapter state: the script is a function of the
+    back-end, the batch block and the step *)
+Lemma run_model_stateless : forall c c',
+  c_be c = c_be c' -> c_batch c = c_batch c' -> c_broker c = c_broker c' -> c_step c = c_step c' ->
+  run_model c = run_model c'.
+Proof. intros c c' A B C D. unfold run_model. rewrite A, B, C, D. reflexivity. Qed.
